@@ -123,10 +123,23 @@ func TestVerifC06(t *testing.T) {
 		ctx := context.Background()
 		keyer := func(primary any) string { return key(fmt.Sprintf("p%v", primary)) }
 
+		// the result token of a read, cross-checked with Cache.IsNotFound (the cache was built with sql.ErrNoRows
+		// as its errNotFound): IsNotFound(err) must hold exactly for the not-found result
+		isNF := func(res string, err error) string {
+			if cc.cache.IsNotFound(err) != (res == "notfound") {
+				return "err:IsNotFound-disagrees-with-" + res
+			}
+			return res
+		}
 		step := func(op []string) string {
 			timex.VerifAdvance(20 * time.Second)
 			env.Jitter.SetJ(verifh.Atoi(c06Opt(op, "j", "500")))
 			dbfail := c06Opt(op, "db", "0") == "1"
+			// `w=1`: the query reports an absent row with a WRAPPED not-found error (errors.Is semantics)
+			notFound := error(ErrNotFound)
+			if c06Opt(op, "w", "0") == "1" {
+				notFound = fmt.Errorf("verif: no such row: %w", ErrNotFound)
+			}
 			env.Begin(cache.VerifC06ModeOrder, c06Opt(op, "c", ""))
 			queries = 0
 			res := ""
@@ -142,12 +155,12 @@ func TestVerifC06(t *testing.T) {
 					}
 					r, ok := rows[pk]
 					if !ok {
-						return ErrNotFound
+						return notFound
 					}
 					*v.(*c06Row) = r
 					return nil
 				})
-				res = c06Err(err)
+				res = isNF(c06Err(err), err)
 				if err == nil {
 					res = fmt.Sprintf("val:r:%d:%d:%d", v.Id, v.V, v.A)
 				}
@@ -196,12 +209,12 @@ func TestVerifC06(t *testing.T) {
 							}
 							r, ok := rows[pk]
 							if !ok {
-								return ErrNotFound
+								return notFound
 							}
 							*v.(*c06Row) = r
 							return nil
 						})
-						r := c06Err(err)
+						r := isNF(c06Err(err), err)
 						if err == nil {
 							r = fmt.Sprintf("val:r:%d:%d:%d", v.Id, v.V, v.A)
 						}
@@ -230,11 +243,11 @@ func TestVerifC06(t *testing.T) {
 						}
 						pk, ok := idx[a]
 						if !ok {
-							return nil, ErrNotFound
+							return nil, notFound
 						}
 						r, ok := rows[pk]
 						if !ok {
-							return nil, ErrNotFound
+							return nil, notFound
 						}
 						*v.(*c06Row) = r
 						return pk, nil
@@ -261,12 +274,12 @@ func TestVerifC06(t *testing.T) {
 						}
 						r, ok := rows[pk]
 						if !ok {
-							return ErrNotFound
+							return notFound
 						}
 						*v.(*c06Row) = r
 						return nil
 					})
-				res = c06Err(err)
+				res = isNF(c06Err(err), err)
 				if err == nil {
 					res = fmt.Sprintf("val:r:%d:%d:%d", v.Id, v.V, v.A)
 				}
@@ -274,14 +287,14 @@ func TestVerifC06(t *testing.T) {
 				if op[1][0] == 'p' {
 					var v c06Row
 					err := cc.GetCacheCtx(ctx, key(op[1]), &v)
-					res = c06Err(err)
+					res = isNF(c06Err(err), err)
 					if err == nil {
 						res = fmt.Sprintf("val:r:%d:%d:%d", v.Id, v.V, v.A)
 					}
 				} else {
 					var v any
 					err := cc.GetCacheCtx(ctx, key(op[1]), &v)
-					res = c06Err(err)
+					res = isNF(c06Err(err), err)
 					if err == nil {
 						f, ok := v.(json.Number)
 						if !ok {
@@ -459,8 +472,11 @@ func c06J(r *verifh.Rng) string {
 }
 
 func c06DBFault(r *verifh.Rng) string {
-	if r.Chance(1, 8) {
+	switch r.Intn(16) {
+	case 0, 1:
 		return " db=1"
+	case 2, 3:
+		return " w=1" // an absent row is reported with a wrapped not-found error
 	}
 	return ""
 }
@@ -511,8 +527,19 @@ func c06OptionScenarios() []verifh.Section {
 	return secs
 }
 
+// the NX semantics of the not-found marker, replayed on every run: an unparsable entry whose DEL fails keeps
+// the slot occupied — SET NX of the marker must leave it alone (absent row), a found row overwrites it with SET;
+// with the DEL succeeding the marker goes in; a marker is never written over a row that arrives first (set,
+// then take); the wrapped not-found error of the query is treated as not-found (errors.Is).
+var c06NXScenario = verifh.Section{Cfg: "exp=20000 nf=3000 stale=report nodes=1 type=node place=-", Ops: []string{
+	"raw p1 j:3 50000", "take p1 c=01 j=500", "get p1 c=01", "take p1 c=011", "take p1 j=0", "take p1", "ft 4000", "take p1 w=1 j=1000", "take p1 w=1",
+	"raw x1 j:4 50000", "qindex x1 c=01", "qindex x1 w=1", "qindex x1",
+	"exec - put:2:5:2", "raw p2 j:1 100000", "take p2 c=01 j=500", "take p2",
+	"raw x2 j:2 100000", "qindex x2 c=01", "qindex x2", "exec p2,x2 rm:2", "set p2 r:2:5:2", "take p2", "del p2", "take p2 w=1", "qindex x2 w=1",
+}}
+
 func c06Gen(r *verifh.Rng) []verifh.Section {
-	secs := []verifh.Section{c06StaleScenario, c06ClusterScenario}
+	secs := []verifh.Section{c06StaleScenario, c06ClusterScenario, c06NXScenario}
 	secs = append(secs, c06OptionScenarios()...)
 	nsec := verifh.Scale(44, 400)
 	offE, offN := r.Intn(100), r.Intn(100)
@@ -582,7 +609,10 @@ func c06Gen(r *verifh.Rng) []verifh.Section {
 				if r.Chance(1, 4) {
 					w = fmt.Sprintf("rm:%d", pkey())
 				}
-				dbf := c06DBFault(r)
+				dbf := ""
+				if r.Chance(1, 8) {
+					dbf = " db=1"
+				}
 				var keys []string
 				if dbf == "" {
 					keys = db.write(w)
